@@ -41,6 +41,18 @@ Proof.
   cbn [map flat_map]. rewrite map_app, flat_shift, IH. reflexivity.
 Qed.
 
+Lemma height_shift d : forall a, mp4_height (shift_atom d a) = mp4_height a.
+Proof.
+  induction a as [n o l h|n o l h ks IH] using mp4_atom_ind'; [reflexivity|].
+  rewrite shift_node, !height_node. f_equal. unfold shift_forest.
+  induction ks as [|k r IHr]; [reflexivity|]. inversion IH as [|? ? Hk Hr]; subst.
+  cbn [map mp4_forest_height]. rewrite Hk, (IHr Hr). reflexivity.
+Qed.
+Lemma forest_height_shift d l : mp4_forest_height (shift_forest d l) = mp4_forest_height l.
+Proof.
+  unfold shift_forest. induction l as [|k r IH]; [reflexivity|]. cbn [map mp4_forest_height]. rewrite height_shift, IH. reflexivity.
+Qed.
+
 (* the header bytes of x in f are the header bytes of (shifted x) in g *)
 Definition hdr_agree (f g : list Z) (d : Z) (x : mp4_atom) : Prop :=
   agree f (ma_off x) g (ma_off x + d) (ma_hdr x).
